@@ -886,6 +886,51 @@ def lower_lazy_next(prog, d, max_sites=40):
     return changed
 
 
+def fold_const_slice_len(d):
+    """`CONST.len()` of an array constant (`const ZEROS: [u8; 4]`; `ZEROS.len()` unsizes a reference to it and calls
+    <[T]>::len) is the array length N of its type: the call becomes the constant"""
+    blocks, locs = d["blocks"], d["locals"]
+    changed = False
+    for b in blocks:
+        if b["cleanup"]:
+            continue
+        t = b["term"]
+        if t["k"] != "call" or t["target"] < 0 or len(t["args"]) != 1 or t["dest"]["proj"]:
+            continue
+        c = _callee(t)
+        if not (c.endswith("<impl [T]>::len") or c.endswith("slice::len")):
+            continue
+        op = t["args"][0]
+        n_len = None
+        for _ in range(5):
+            if op.get("k") == "const":
+                m = re.search(r";\s*(\d+)\]", str(op.get("ty", "")))
+                if m and ("bytes" in op or "str_array" in op or "enum_array" in op):
+                    n_len = int(m.group(1))
+                break
+            if op.get("k") not in ("copy", "move") or [e for e in op["place"]["proj"] if e["k"] != "deref"]:
+                break
+            ds = _def_sites(blocks, op["place"]["local"])
+            if len(ds) != 1 or ds[0][1] != "stmt":
+                break
+            rv = ds[0][2]["rv"]
+            if rv["k"] == "use":
+                op = rv["op"]
+            elif rv["k"] == "cast":
+                op = rv["a"]
+            elif rv["k"] == "ref" and not [e for e in rv["place"]["proj"] if e["k"] != "deref"]:
+                op = {"k": "copy", "place": {"local": rv["place"]["local"], "proj": []}}
+            else:
+                break
+        if n_len is None:
+            continue
+        line = t.get("span", {}).get("l0", 0)
+        b["stmts"].append({"place": t["dest"], "rv": {"k": "use", "op": {"k": "const", "ty": "usize", "bits": str(n_len), "size": 8, "dbg": "%d_usize" % n_len}}, "line": line})
+        b["term"] = {"k": "goto", "target": t["target"]}
+        changed = True
+    return changed
+
+
 def expand_array_map(prog, d):
     """`[a, b, c].map(f)` on an array literal is `[f(a), f(b), f(c)]`: spelled out with direct calls of f (a closure,
     a function, or a tuple-variant constructor, which becomes a literal)"""
@@ -1735,7 +1780,8 @@ class Inliner:
             f = self.prog.fns[p]
             d2 = dict(f.d)
             d2["blocks"] = copy.deepcopy(f.blocks)
-            if thread_known_discriminants(self.prog, d2):
+            folded = fold_const_slice_len(d2)
+            if thread_known_discriminants(self.prog, d2) or folded:
                 nf = Fn(d2, f.crate)
                 nf.program = self.prog
                 self.prog.fns[p] = nf
